@@ -29,6 +29,69 @@ from .exprs import UDFS
 from .tags import make_tags
 
 
+class IdSeam:
+    """IdentitySeam: what `id()` returns *inside lsst.daf.relation* is owned by the simulator.  Objects that can be
+    weakly referenced get small simulated addresses from a LIFO free list that is refilled the moment an object dies,
+    so that "a new object lands on the address of a dead one" - which in CPython depends on the allocator's state and is
+    therefore not replayable - happens as early as possible and identically in every process.  On a library that never
+    keys anything on id() of short-lived objects this changes nothing but the value of `hash(engine)`."""
+
+    def __init__(self):
+        self.table = {}
+        self.free = []
+        self.next = 1000
+        self.reused = 0
+
+    def __call__(self, obj):
+        import weakref
+
+        r = id(obj)
+        ent = self.table.get(r)
+        if ent is not None and ent[0]() is obj:
+            return ent[1]
+        try:
+            ref = weakref.ref(obj, self._dead)
+        except TypeError:
+            return r
+        if self.free:
+            addr = self.free.pop()
+            self.reused += 1
+        else:
+            addr = self.next
+            self.next += 16
+        self.table[r] = (ref, addr)
+        return addr
+
+    def _dead(self, ref):
+        for r, ent in list(self.table.items()):
+            if ent[0] is ref:
+                del self.table[r]
+                self.free.append(ent[1])
+                return
+
+    def install(self):
+        import sys
+
+        self.saved = {}
+        for name, mod in list(sys.modules.items()):
+            if name.startswith("lsst.daf.relation") and mod is not None:
+                self.saved[name] = mod.__dict__.get("id", IdSeam)
+                mod.id = self
+
+    def uninstall(self):
+        import sys
+
+        for name, old in self.saved.items():
+            mod = sys.modules.get(name)
+            if mod is None:
+                continue
+            if old is IdSeam:
+                mod.__dict__.pop("id", None)
+            else:
+                mod.id = old
+        self.saved = {}
+
+
 class SimIOError(Exception):
     """The injected fault."""
 
@@ -350,6 +413,8 @@ class World:
         self._set_reverse(self.reverse)
         self._raw.set_progress_handler(self._progress, 25)
         self.processor = SimProcessor(self)
+        self.idseam = IdSeam()
+        self.idseam.install()
         self.leaves = {}       # lid -> dict(info)
         self.leaf_by_obj = {}  # id(LeafRelation) -> info (names may be shared by re-declared leaves)
         self.payload_tokens = {}
@@ -527,6 +592,7 @@ class World:
         return self.payload_tokens[k]
 
     def close(self):
+        self.idseam.uninstall()
         try:
             self.conn.close()
             self.db.dispose()
